@@ -405,7 +405,7 @@ def r5_defaults(repo, report):
         fr = re.match(r"(COPY@\d+)\([^)]*\)\.pop\('required', (True|False)\)$", str(ta.get("front_required", "")))
         br = re.match(r"(COPY@\d+)\([^)]*\)\.pop\('required', (True|False)\)$", str(ta.get("back_required", "")))
         if not fr or not br:
-            return f"shape:{k[:200]}"
+            return f"shape:{k}"
         return (fr.group(2), br.group(2))
 
     def exp(rv):
@@ -422,6 +422,15 @@ def r5_defaults(repo, report):
     # the defaults table is about the specifications that are accepted
     rejected_keys = [k for r in rows for k in r.valuation if k.startswith("in:'anywhere':") or k.startswith("in:'rightmost':")]
     rows = [r for r in rows if not any(r.valuation.get(k) is True for k in rejected_keys)]
+    # the two flags are what the side's parameters say, with the documented default: X.pop('required', default). Anything
+    # else on some path (the popped value combined with something, a constant) is not the documented rule.
+    shapes = sorted({o for o in (outcome(r) for r in rows if r.exit[0] == "return") if isinstance(o, str) and o.startswith("shape:")})
+    if shapes:
+        ta = builder_rules.term_args(repo, shapes[0][len("shape:"):])
+        report.ob("C09.R5", "required/optional defaults", False, facts={"front_required": str(ta.get("front_required"))[:120], "back_required": str(ta.get("back_required"))[:120]}, loc=repo.loc(fn), cases=len(rows),
+                  expected="front_required / back_required = <that side's parameters>.pop('required', <documented default>)",
+                  why=f"front_required={str(ta.get('front_required'))[:90]}, back_required={str(ta.get('back_required'))[:90]}: an explicit ;optional / ;required in the specification no longer decides alone")
+        return
     mism, n, _ = check_table(rows, roles, exp, outcome, constraint=constraint, ignore_atoms=[f"isnone:{ps[2].upper()}"] + sorted(set(rejected_keys)))
     report.ob("C09.R5", "required/optional defaults", not mism, facts={"rows": len(rows), "mismatches": mism[:4]},
               expected="-g: (required, required); -a: (front restricted?, back restricted?); an explicit 'required' entry of that side's parameters overrides (pop with the default); -b raises", loc=repo.loc(fn), cases=n,
